@@ -17,6 +17,7 @@ Values:  ("i", int) | ("b", bool) | ("f", float) | ("adt", variant, fields)
          | ("ref", local, proj) | None (Unknown)
 """
 import math
+import re
 import struct
 
 UNK = None
@@ -59,6 +60,34 @@ def _rust_str(s):
         else:
             return None
     return "".join(out)
+
+
+def _const_array(text):
+    """Elements of a constant array as rustc prints it: `*b"..."` / `b"..."` for bytes, `[1_u8, 2_u8]` otherwise."""
+    t = text.strip()
+    if t.startswith("const "):
+        t = t[6:].strip()
+    t = t.lstrip("&*")
+    if t.startswith('b"') and t.endswith('"'):
+        v = _rust_str(t[1:])
+        return tuple(("i", ord(ch)) for ch in v) if v is not None else None
+    if t.startswith("[") and t.endswith("]"):
+        out = []
+        for part in t[1:-1].split(","):
+            part = part.strip()
+            if not part:
+                continue
+            m = re.match(r"^(-?\d+)(_[iu]\d+|_usize|_isize)?$", part)
+            if m:
+                out.append(("i", int(m.group(1))))
+                continue
+            m = re.match(r"^'(.)'$", part)
+            if m:
+                out.append(("i", ord(m.group(1))))
+                continue
+            return None
+        return tuple(out)
+    return None
 
 
 def some(v):
@@ -289,6 +318,10 @@ class PE:
                 return _unit()
             if o.get("fn"):
                 return ("fn", o["fn"])
+            if re.match(r"^&?\[(u8|i8|u16|u32|u64|usize|char); \d+\]$", ty) and isinstance(o.get("s"), str):
+                arr = _const_array(o["s"])
+                if arr is not None:
+                    return ("arr", arr)
             if ty in ("&str", "&'static str") and isinstance(o.get("s"), str):
                 t = o["s"]
                 if t.startswith("const "):
@@ -525,6 +558,15 @@ class PE:
                     if v is not None and v[0] != "ref":
                         return v
             return UNK
+        if n.endswith("slice::<impl [T]>::contains") and len(argvals) >= 2:
+            arr, x = a(0), a(1)
+            if arr is not None and arr[0] == "arr" and x is not None and x[0] == "i":
+                return ("b", any(e == x for e in arr[1]))
+            return UNK
+        if n.endswith("slice::<impl [T]>::len") and argvals:
+            arr = a(0)
+            if arr is not None and arr[0] == "arr":
+                return ("i", len(arr[1]))
         if n.endswith("char::methods::<impl char>::from_u32") or n.endswith("char::from_u32") or \
                 n.endswith("<impl char>::from_u32"):
             v = a(0)
